@@ -1069,6 +1069,7 @@ class Interp:
                 self.unmodelled_call(d, fr, e)
                 return [(st, VTop("unmodelled " + d), None)]
             self.stats["prim_calls"] += 1
+            self.choice_pair(st, fr, e, name, vals)
             return h(self, st, fr, e, callee, vals)
         # 2. diverging functions: panic paths
         tyd = self.facts.ty(e["ty"])
@@ -1127,6 +1128,54 @@ class Interp:
                 except Exception:
                     pass
         return [(st, VTop("unmodelled " + d), None)]
+
+    ORDER_INSENSITIVE = {"max", "sum", "len", "is_empty", "fill", "empty", "arange"}
+
+    def choice_pair(self, st, fr, e, name, vals):
+        """CHOICE: the counts of `sparse_bincount` come in the (unspecified) order of its keys; a position-sensitive
+        primitive may consume them only together with those keys."""
+        if name in self.ORDER_INSENSITIVE:
+            return
+        counts, keys = set(), set()
+
+        def walk_t(x):
+            if isinstance(x, tuple):
+                if len(x) == 2 and x[0] == "spcounts":
+                    counts.add(x[1])
+                if len(x) == 2 and x[0] == "spkeys":
+                    keys.add(x[1])
+                for y in x:
+                    walk_t(y)
+            elif isinstance(x, Poly):
+                for a_ in x.atoms():
+                    walk_t(a_)
+
+        def walk_v(v, depth=0):
+            if depth > 6:
+                return
+            while isinstance(v, VMutRef):
+                try:
+                    v = self.read_place(st, v.place)
+                except Exception:
+                    return
+            if isinstance(v, VSeq):
+                walk_t(v.t)
+            elif isinstance(v, VRec):
+                for x in v.f.values():
+                    walk_v(x, depth + 1)
+            elif isinstance(v, VTup):
+                for x in v.items:
+                    walk_v(x, depth + 1)
+        for v in vals:
+            walk_v(v)
+        for X in counts & keys:
+            self.oblige("PRE", fr, e, "CHOICE " + name, "sparse_bincount counts consumed together with their keys: "
+                        + show_term(("spcounts", X))[:120], True, "paired")
+        for X in counts - keys:
+            self.oblige("PRE", fr, e, "CHOICE " + name,
+                        "sparse_bincount counts are consumed position-wise together with their keys (key order is an "
+                        "open choice of the array backend): " + show_term(("spcounts", X))[:160], False, "",
+                        detail=self.describe(st))
 
     def enclosing_macro(self, e):
         return self.macro_of(e)
